@@ -277,3 +277,225 @@ pub fn multiline_spans(src: &Source) -> Vec<Value> {
     rec(LinkedNode::new(src.root()), &attrs, &line_of, &mut out);
     out
 }
+
+// ---------------------------------------------------------------------------------------------
+// C19: import statements
+
+fn leaf_texts(node: &SyntaxNode, out: &mut Vec<String>) {
+    if !is_inner(node) {
+        let k = node.kind();
+        if k != SyntaxKind::Space && !is_comment(k) {
+            out.push(node.text().to_string());
+        }
+    } else {
+        for c in node.children() {
+            leaf_texts(c, out);
+        }
+    }
+}
+
+fn has_comment_deep(node: &SyntaxNode) -> bool {
+    is_comment(node.kind()) || node.children().any(has_comment_deep)
+}
+
+/// Every ModuleImport of the tree in pre-order: its items (text = significant leaves joined by
+/// one blank, bound name, rank of the text in Rust `str` order among the items of the import),
+/// and whether a comment occurs at or after the colon.
+pub fn imports(root: &SyntaxNode) -> Vec<Value> {
+    let mut out = vec![];
+    let attrs = AttrStore::new(root);
+    fn rec(n: &SyntaxNode, out: &mut Vec<Value>, attrs: &AttrStore, dis: bool) {
+        // inside a region that `@typstyle off` reproduces verbatim (C07 takes precedence)
+        let dis = dis
+            || attrs.is_format_disabled(n)
+            || n.cast::<ast::CodeBlock>()
+                .is_some_and(|cb| attrs.is_format_disabled(cb.body().to_untyped()));
+        if n.kind() == SyntaxKind::ModuleImport {
+            let mut items: Vec<(String, String)> = vec![];
+            let mut has_comment = false;
+            let mut any_comment = false;
+            for c in n.children() {
+                if has_comment_deep(c) {
+                    any_comment = true;
+                    has_comment = true;
+                }
+                if c.kind() == SyntaxKind::ImportItems {
+                    for it in c.children() {
+                        let bound = match it.kind() {
+                            SyntaxKind::ImportItemPath => it
+                                .cast::<ast::ImportItemPath>()
+                                .map(|p| p.name().as_str().to_string()),
+                            SyntaxKind::RenamedImportItem => it
+                                .cast::<ast::RenamedImportItem>()
+                                .map(|p| p.new_name().as_str().to_string()),
+                            _ => None,
+                        };
+                        if let Some(b) = bound {
+                            // the item as printed: no blanks around dots, one around `as`
+                            let mut ts = vec![];
+                            leaf_texts(it, &mut ts);
+                            let t: String = ts
+                                .iter()
+                                .map(|x| if x == "as" { " as ".to_string() } else { x.clone() })
+                                .collect();
+                            items.push((t, b));
+                        }
+                    }
+                }
+            }
+            let mut sorted: Vec<&String> = items.iter().map(|x| &x.0).collect();
+            sorted.sort();
+            sorted.dedup();
+            let its: Vec<Value> = items
+                .iter()
+                .map(|(t, b)| {
+                    let rank = sorted.iter().position(|s| *s == t).unwrap();
+                    json!({"text": t, "bound": b, "rank": rank})
+                })
+                .collect();
+            out.push(json!({"items": its, "has_comment": has_comment, "any_comment": any_comment, "disabled": dis}));
+        }
+        for c in n.children() {
+            rec(c, out, attrs, dis);
+        }
+    }
+    rec(root, &mut out, &attrs, false);
+    out
+}
+
+/// The significant leaf texts of the tree with every ImportItems subtree (and the optional
+/// parentheses / trailing comma around it) left out.
+pub fn rest_without_import_items(root: &SyntaxNode) -> Vec<Value> {
+    let mut out = vec![];
+    fn rec(n: &SyntaxNode, out: &mut Vec<Value>) {
+        if n.kind() == SyntaxKind::ModuleImport {
+            let mut after_colon = false;
+            for c in n.children() {
+                if !after_colon {
+                    rec(c, out);
+                }
+                if c.kind() == SyntaxKind::Colon {
+                    after_colon = true;
+                }
+            }
+            return;
+        }
+        if !is_inner(n) {
+            let k = n.kind();
+            if k != SyntaxKind::Space && k != SyntaxKind::Parbreak {
+                out.push(Value::String(n.text().to_string()));
+            }
+        } else {
+            for c in n.children() {
+                rec(c, out);
+            }
+        }
+    }
+    rec(root, &mut out);
+    out
+}
+
+// ---------------------------------------------------------------------------------------------
+// C07: `@typstyle off`
+
+fn is_target_kind(n: &SyntaxNode) -> bool {
+    n.is::<ast::Expr>() || matches!(n.kind(), SyntaxKind::Code | SyntaxKind::Math)
+}
+
+fn node_text(n: &SyntaxNode) -> String {
+    n.clone().into_text().to_string()
+}
+
+/// Successive unwrappings of a node by optional delimiters: Parenthesized -> its expression;
+/// a code block holding exactly one expression -> that expression.
+fn unwrap_chain(n: &SyntaxNode, out: &mut Vec<Value>) {
+    out.push(Value::Array(split_lf(&node_text(n))));
+    match n.kind() {
+        SyntaxKind::Parenthesized => {
+            if let Some(inner) = n
+                .children()
+                .find(|c| !matches!(c.kind(), SyntaxKind::LeftParen | SyntaxKind::RightParen | SyntaxKind::Space) && !is_comment(c.kind()))
+            {
+                unwrap_chain(inner, out);
+            }
+        }
+        SyntaxKind::CodeBlock => {
+            if let Some(code) = n.children().find(|c| c.kind() == SyntaxKind::Code) {
+                let exprs: Vec<&SyntaxNode> = code
+                    .children()
+                    .filter(|c| c.kind() != SyntaxKind::Space && !is_comment(c.kind()) && c.kind() != SyntaxKind::Semicolon)
+                    .collect();
+                if exprs.len() == 1 {
+                    unwrap_chain(exprs[0], out);
+                }
+            }
+        }
+        _ => {}
+    }
+}
+
+/// Every directive comment (pre-order) with the node that follows it (skipping Space and Hash):
+/// kind, whether it is an expression / code body / math body, its text split at LF, the texts of
+/// its successive unwrappings, and the text of the rest of the parent from that node on (for the
+/// case where the printer dropped the delimiters that enclosed directive and node).
+pub fn directives(root: &SyntaxNode) -> Vec<Value> {
+    let mut out = vec![];
+    fn rec(n: &SyntaxNode, out: &mut Vec<Value>) {
+        let cs: Vec<&SyntaxNode> = n.children().collect();
+        for (i, c) in cs.iter().enumerate() {
+            if is_comment(c.kind()) && c.text().contains("@typstyle off") {
+                let mut j = i + 1;
+                while j < cs.len() && matches!(cs[j].kind(), SyntaxKind::Space | SyntaxKind::Hash) {
+                    j += 1;
+                }
+                if j < cs.len() && !is_comment(cs[j].kind()) {
+                    let t = cs[j];
+                    let mut cands = vec![];
+                    unwrap_chain(t, &mut cands);
+                    // a comment may cross punctuation next to it (C06): also offer the node found
+                    // when separators are skipped as well
+                    let mut j2 = j;
+                    while j2 < cs.len()
+                        && matches!(
+                            cs[j2].kind(),
+                            SyntaxKind::Space | SyntaxKind::Hash | SyntaxKind::Comma | SyntaxKind::Semicolon
+                        )
+                    {
+                        j2 += 1;
+                    }
+                    if j2 != j && j2 < cs.len() && !is_comment(cs[j2].kind()) {
+                        unwrap_chain(cs[j2], &mut cands);
+                    }
+                    let rest: String = cs[j..].iter().map(|x| node_text(x)).collect();
+                    out.push(json!({
+                        "has": true, "k": kind_name(t.kind()), "target": is_target_kind(t),
+                        "parent": kind_name(n.kind()),
+                        "lines": split_lf(&node_text(t)), "cands": cands, "rest": split_lf(&rest),
+                    }));
+                } else {
+                    out.push(json!({"has": false, "k": "", "target": false, "parent": kind_name(n.kind()),
+                                    "lines": [], "cands": [], "rest": []}));
+                }
+            }
+            rec(c, out);
+        }
+    }
+    rec(root, &mut out);
+    out
+}
+
+/// Output lines for the unit-scaling relation: indentation, the text after it, exemption.
+pub fn unit_lines(text: &str, src: &Source) -> Vec<Value> {
+    let spans = multiline_spans(src);
+    text.split('\n')
+        .enumerate()
+        .map(|(i, l)| {
+            let ln = i + 1;
+            let ind = l.bytes().take_while(|b| *b == b' ').count();
+            let ex = spans.iter().any(|s| {
+                (s["a"].as_u64().unwrap() as usize) < ln && ln <= s["b"].as_u64().unwrap() as usize
+            });
+            json!({"ind": ind, "rest": &l[ind..], "ex": ex})
+        })
+        .collect()
+}
